@@ -60,6 +60,11 @@ def oracle_roundtrip(chk, c, a, b, path, sig="sub-roundtrip", tag=""):
         chk.fail(sig + "-raised", {"a": a, "b": b, "path": path, "tag": tag}, repr(e))
         return None
     if back != path:
+        if path.endswith("\n") and back == path[:-1]:
+            # CPython's `$` also matches before a final newline (DESIGN C12_whole_path states
+            # the disjunction): the path comes back without it.  Counted, not a failure.
+            chk.hist("roundtrip_modulo_final_newline", tag or "-")
+            return p2
         chk.fail(sig, {"a": a, "b": b, "path": path, "tag": tag},
                  {"mapped": p2, "back": back})
     return p2
@@ -103,7 +108,7 @@ def run_cases(chk, model, cases, suite, two=False):
                         ml.check_kinds(chk, side, path, d, kind)
                     ml.check_prefix(chk, side, path, kind)
             if two:
-                if kind == "filled-a":
+                if kind == "filled-a" and c.grammar_but_two:
                     oracle_roundtrip(chk, c, c.a, c.b, path, "sub-roundtrip-two-starstar", kind)
                 continue
             if not c.grammar:
@@ -154,7 +159,24 @@ def run(chk, runner_ok):
     fixed.enva, fixed.envb = ml.Env(), ml.Env()
     fixed.wild = [x for x in fixed.atoms_a if x[0] != "L"]
     fixed.fills = ["1/", "2/y/3/", "f"]
+    fixed.grammar_but_two = True
     run_cases(chk, model, [fixed] + cases, "MATCHER-two-starstar", two=True)
+    # ---- a variable used in the pattern and again inside another variable's value ----
+    for i in range(chk.n(6, 30)):
+        inner = rng.choice(["v", "topdir", "ab_1"])
+        val = ml.rand_lit(rng)
+        outer_val = rng.choice(["{%s}-n", "{%s}/l10n", "x{ %s }"]) % inner
+        a = ("{%s}/{outer}/%s*" % (inner, rng.choice(["", "x-"])), [(inner, val), ("outer", outer_val)], None)
+        fill = rng.choice(ml.STAR_FILLS)
+        path = a[0].replace("{%s}" % inner, val).replace("{outer}", outer_val.replace(
+            "{%s}" % inner, val).replace("{ %s }" % inner, val)).replace("*", fill)
+        chk.count(("nested-reuse", a, path))
+        try:
+            d = ml.mk(a).match(path)
+            if d is None or d.get("s1") != fill:
+                chk.fail("filled-path-not-matched", {"a": a, "path": path}, {"got": d})
+        except Exception as e:  # noqa
+            chk.fail("match-raises-nested-variable-reused", {"a": a, "path": path}, repr(e))
     # ---- parse + raw stream ---------------------------------------------------
     pats = []
     for _ in range(chk.n(3000, 30000)):
